@@ -83,16 +83,23 @@ prop("C03", level="proof", runtime=True,
                   "0 <= x/y <= 1 for 0 <= x <= y, y > 0",
                   "random.sample(xs, 2) returns two members at different positions"],
      not_decided=["the call sites in NSGAII.run that rank the pool (fast_nondominated_sorting, see C02) before truncating it"])
-prop("C02", level="exploration", runtime=True,
-     explanation="The sorter (three nested loop phases over feature dictionaries and id lists) is NOT proved: the staged invariant "
-                 "proof planned in DESIGN.md was not discharged. Its complete specification (front 1 = exactly the non-dominated "
-                 "members; every member of front k>1 has all dominators in earlier fronts and one in front k-1; nobody unranked) is "
-                 "evaluated at run time on the real function over every sequence of n<=3 (quick) / n<=4 (thorough) points of a 3x3 "
-                 "grid, i.e. all order types and all input orders of that size, plus random larger populations: bounded. Proved "
-                 "deductively: the id lookup Selector.individual, crowding_distance (called once per front) and three consequences "
-                 "of the specification (lemmas).",
-     assumptions=["dominance verdicts come from the comparator proved in C01"],
-     not_decided=["fast_nondominated_sorting for populations larger than the explored bound"])
+prop("C02", level="other", runtime=True,
+     explanation="Partial. PROVED for every population, size and input order (loop invariants over all seven loops of the real "
+                 "fast_nondominated_sorting, no cardinalities needed): front 1 is EXACTLY the set of members that no other member "
+                 "dominates, and no member ever carries a front number below 1; also the id lookup Selector.individual, "
+                 "crowding_distance (called once per front; its precondition is discharged at the call) and three consequences of "
+                 "the rank specification (lemmas). The sorter is verified against the comparator-agnostic reading of its own "
+                 "verdicts (compare(X[min], X[max]) == 1 / == 2); three lemmas show that for the Pareto comparator this is the "
+                 "textbook dominance relation. NOT proved: the rank law for later fronts (every member of front k>1 has all its "
+                 "dominators in earlier fronts and one in front k-1) and that nobody is left unranked: the counter argument needs "
+                 "per-member ghost lists of unprocessed dominators and a well-foundedness lemma that were not discharged. The COMPLETE "
+                 "specification is evaluated at run time on the real function over every sequence of n<=3 (quick) / n<=4 (thorough) "
+                 "points of a 3x3 grid, i.e. all order types and input orders of that size, plus random larger populations with "
+                 "infeasibility markers: bounded.",
+     assumptions=["population members are pairwise distinct objects with distinct ids and own feature dictionaries (pop_wf)",
+                  "epsilon comparator: the proved clause is about the sorter's own reading of the verdicts (domidx); the bridge to "
+                  "textbook dominance is proved for the Pareto comparator only"],
+     not_decided=["rank law for fronts > 1 and 'nobody unranked' beyond the explored bound"])
 prop("C08", level="proof", runtime=True,
      assumptions=["A1: arithmetic over the reals; A5: pow is an uninterpreted function with the sign / unit-interval facts of x**y "
                   "for x >= 0; random.random() in [0,1), random.uniform(a,b) between a and b",
